@@ -12,10 +12,15 @@ Open Scope Z_scope.
             (obs = the outcome of every one of these calls, in order)
    CTrunc   the typed writes ws into a fresh buffer (total bytes), NewReadableBufferX(first cut bytes), the reads, Len()
    CReWrite Bytes() = b0; ReWrite / ReWriteU32; Bytes() = b1
+   CHold    a history like CHist in which the caller keeps every value a read returned (the strings of ReadString /
+            ReadLimitString, the slice of ReadN; not the documented no-copy results of ZReadN / Bytes) WITHOUT copying it,
+            goes on using the buffer (writes on the drained buffer, Reset and reuse, overwriting its own input slice at the
+            end) and looks at the kept values again: now = the outcomes as they read then
    CStream  the read operations on NewReaderX(source delivering the chunks; eofl = last data comes with io.EOF) and on
             NewReadableBufferX(concat chunks); what the source / the buffer still hold afterwards *)
 Inductive case :=
   | CHist (init : list Z) (ops : list op) (obs : list outcome) (final : list Z)
+  | CHold (init : list Z) (ops : list op) (obs : list outcome) (final : list Z) (now : list outcome)
   | CRound (ws : list op) (obs : list outcome)
   | CTrunc (ws : list op) (total cut : Z) (obs : list outcome)
   | CReWrite (b0 : list Z) (o : op) (out : outcome) (b1 : list Z)
@@ -27,6 +32,8 @@ Definition case_accept (c : case) : bool :=
   match c with
   | CHist init ops obs final =>
       let '(o, f) := brun init ops in outs_eqb o obs && zl_eqb f final
+  | CHold init ops obs final now =>
+      let '(o, f) := brun init ops in outs_eqb o obs && zl_eqb f final && outs_eqb o now   (* values do not change in the model *)
   | CRound ws obs =>
       forallb is_write ws && outs_eqb (fst (brun [] (round_ops ws))) obs
   | CTrunc ws total cut obs =>
@@ -44,7 +51,8 @@ Definition case_accept (c : case) : bool :=
 (* ---------------- holds: the clauses of the property on the observed behaviour ---------------- *)
 Definition case_holds (c : case) : bool :=
   match c with
-  | CHist init ops obs final => hist_ok ops obs
+  | CHist init ops obs final => hist_ok init ops obs
+  | CHold init ops obs final now => hist_ok init ops obs && hold_ok obs now
   | CRound ws obs => round_ok ws obs
   | CTrunc ws total cut obs => trunc_ok ws total cut obs
   | CReWrite b0 o out b1 => rewrite_ok b0 o out b1
@@ -53,9 +61,12 @@ Definition case_holds (c : case) : bool :=
 
 Theorem case_sound : forall c, case_accept c = true -> case_holds c = true.
 Proof.
-  intros [init ops obs final | ws obs | ws total cut obs | b0 o out b1 | chunks eofl ops obs_r rest_r obs_b rest_b];
+  intros [init ops obs final | init ops obs final now | ws obs | ws total cut obs | b0 o out b1 | chunks eofl ops obs_r rest_r obs_b rest_b];
     cbn [case_accept case_holds]; intros H.
   - destruct (brun init ops) as [o f] eqn:E. apply andb_prop in H as [H1 _]. apply outs_eqb_eq in H1. rewrite <- H1.
+    replace o with (fst (brun init ops)) by now rewrite E. apply hist_sound.
+  - destruct (brun init ops) as [o f] eqn:E. apply andb_prop in H as [H H3]. apply andb_prop in H as [H1 _].
+    apply outs_eqb_eq in H1, H3. rewrite <- H1, <- H3. unfold hold_ok. rewrite outs_eqb_refl, andb_true_r.
     replace o with (fst (brun init ops)) by now rewrite E. apply hist_sound.
   - apply andb_prop in H as [Hw H1]. apply outs_eqb_eq in H1. rewrite <- H1. apply round_sound, Hw.
   - apply andb_prop in H as [H H5]. apply andb_prop in H as [H H4]. apply andb_prop in H as [H H3].
